@@ -43,10 +43,12 @@ class TLCResult:
         self.rc = rc
         self.out = out
         self.wall = wall
-        m = re.search(r"(\d+) states generated, (\d+) distinct states found, (\d+) states left", out)
-        self.generated = int(m.group(1)) if m else 0
-        self.distinct = int(m.group(2)) if m else 0
-        self.left = int(m.group(3)) if m else 0
+        ms = re.findall(r"([\d,]+) states generated[^\n]*?, ([\d,]+) distinct states found[^\n]*?, ([\d,]+) states left", out)
+        m = ms[-1] if ms else None       # the final summary line, not a progress line
+        num = lambda x: int(x.replace(",", ""))
+        self.generated = num(m[0]) if m else 0
+        self.distinct = num(m[1]) if m else 0
+        self.left = num(m[2]) if m else 0
         m = re.search(r"depth of the complete state graph search is (\d+)", out)
         self.depth = int(m.group(1)) if m else 0
         self.violated = re.findall(r"Error: Invariant (\S+) is violated", out)
